@@ -3,8 +3,36 @@
 
 use unimock::*;
 
-#[derive(Debug, Default, PartialEq)]
-pub struct Val(pub String);
+use std::sync::atomic::{AtomicIsize, Ordering::SeqCst};
+
+/// number of live values of each instrumented type (constructed - dropped)
+pub static LIVE_VAL: AtomicIsize = AtomicIsize::new(0);
+pub static LIVE_UNIQ: AtomicIsize = AtomicIsize::new(0);
+
+#[derive(Debug, PartialEq)]
+pub struct Val(String);
+
+impl Val {
+    pub fn new(s: impl Into<String>) -> Self {
+        LIVE_VAL.fetch_add(1, SeqCst);
+        Val(s.into())
+    }
+    pub fn take(mut self) -> String {
+        std::mem::take(&mut self.0)
+    }
+}
+
+impl Default for Val {
+    fn default() -> Self {
+        Val::new("")
+    }
+}
+
+impl Drop for Val {
+    fn drop(&mut self) {
+        LIVE_VAL.fetch_sub(1, SeqCst);
+    }
+}
 
 /// user code that panics: cloning a value whose tag is >= 1000
 impl Clone for Val {
@@ -14,7 +42,27 @@ impl Clone for Val {
                 panic!("user:clone");
             }
         }
-        Val(self.0.clone())
+        Val::new(self.0.clone())
+    }
+}
+
+/// not Clone
+#[derive(Debug, PartialEq)]
+pub struct Uniq(String);
+
+impl Uniq {
+    pub fn new(s: impl Into<String>) -> Self {
+        LIVE_UNIQ.fetch_add(1, SeqCst);
+        Uniq(s.into())
+    }
+    pub fn take(mut self) -> String {
+        std::mem::take(&mut self.0)
+    }
+}
+
+impl Drop for Uniq {
+    fn drop(&mut self) {
+        LIVE_UNIQ.fetch_sub(1, SeqCst);
     }
 }
 
@@ -29,10 +77,6 @@ fn user_panic_if_armed(which: u32, what: &str) {
     }
 }
 
-/// not Clone
-#[derive(Debug, PartialEq)]
-pub struct Uniq(pub String);
-
 #[unimock(api=TMock, unmock_with=[real0, _, _, real2, _, real4, _])]
 pub trait T {
     fn m0(&self, a: u8) -> Val;
@@ -46,11 +90,11 @@ pub trait T {
     }
     fn m2(&self, a: u8) -> Val {
         user_panic_if_armed(2, "user:dflt");
-        Val(format!("dflt2({a})"))
+        Val::new(format!("dflt2({a})"))
     }
     fn m3(&self, a: u8) -> Val {
         user_panic_if_armed(2, "user:dflt");
-        Val(format!("dflt3({a})"))
+        Val::new(format!("dflt3({a})"))
     }
     fn m4(&self, a: u8) -> Uniq;
     fn m5(&self, a: u8) -> Uniq;
@@ -58,15 +102,15 @@ pub trait T {
 
 pub fn real0(_: &impl T, a: u8) -> Val {
     user_panic_if_armed(1, "user:real");
-    Val(format!("real0({a})"))
+    Val::new(format!("real0({a})"))
 }
 pub fn real2(_: &impl T, a: u8) -> Val {
     user_panic_if_armed(1, "user:real");
-    Val(format!("real2({a})"))
+    Val::new(format!("real2({a})"))
 }
 pub fn real4(_: &impl T, a: u8) -> Uniq {
     user_panic_if_armed(1, "user:real");
-    Uniq(format!("real4({a})"))
+    Uniq::new(format!("real4({a})"))
 }
 
 #[unimock(api=GMock)]
